@@ -94,6 +94,13 @@ def st_scenario_base(draw):
             f = qgen.sfield(ctx, table='a')
             items.append({'k': 'agg', 'fn': 'MAX', 'sp': draw(st.sampled_from(['MAX', 'Max'])), 'e': qgen.mk('len(%s)' % f['py'], None, 'int')})
         q = {'type': 'select', 'items': items, 'group': [key], 'join': None}
+        if draw(st.integers(0, 2)) == 0:
+            # aggregates over the whole table (no GROUP BY, no plain column): one record in total, whatever bound is given
+            q = {'type': 'select', 'items': items[1:], 'group': None, 'join': None}
+            if len(A) >= 2 and draw(st.integers(0, 3)) != 3:
+                # a bound below the number of input records, nothing else in the query
+                q['top'] = {'n': draw(st.integers(1, len(A) - 1)), 'form': draw(st.sampled_from(['TOP', 'LIMIT']))}
+                return {'A': A, 'B': None, 'a_names': a_names, 'b_names': None, 'q': q}
         if draw(st.booleans()):
             q['top'] = {'n': draw(st.integers(0, 3)), 'form': draw(st.sampled_from(['TOP', 'LIMIT']))}
         if draw(st.integers(0, 2)) == 0:
@@ -195,11 +202,24 @@ def check_scenario(sc, scratch, stats=None):
         dlm, policy, enc = ',', 'quoted', 'utf-8'     # the CSV front-end rejects non-ASCII query text with latin-1 by design
     default_dialect = (dlm, policy, enc) == (',', 'quoted', 'utf-8')
     src, jn = os.path.join(scratch, 'c13_in.csv'), os.path.join(scratch, 'c13_join.csv')
+    # a quarter of the scenarios: both files carry comment lines (before the header, between and after the records) and are read with comment_prefix='#'
+    comment = '#' if len(text) % 4 == 1 else None
+
+    def with_comments(body):
+        if comment is None:
+            return body
+        lines = body.split('\n')
+        out = ['#leading comment' + dlm + 'x']
+        for i, l in enumerate(lines):
+            out.append(l)
+            if i % 2 == 0 and l != '':
+                out.append('#' + l)          # a comment line that would parse as a record (and match as a join key) if it were not skipped
+        return '\n'.join(out)
     with open(src, 'w', encoding=enc, newline='') as f:
-        f.write(refcsv.write_table([a_names] + A, dlm, policy))
+        f.write(with_comments(refcsv.write_table([a_names] + A, dlm, policy)))
     if B is not None:
         with open(jn, 'w', encoding=enc, newline='') as f:
-            f.write(refcsv.write_table([b_names] + B, dlm, policy))
+            f.write(with_comments(refcsv.write_table([b_names] + B, dlm, policy)))
     ftext = text.replace(' b on ', ' %s on ' % jn).replace(' B on ', ' %s on ' % jn) if B is not None else text
 
     def parse(path_or_text, pdlm, ppolicy, is_text=False, penc=None):
@@ -210,7 +230,7 @@ def check_scenario(sc, scratch, stats=None):
     dst = os.path.join(scratch, 'c13_out.csv')
     warnings = []
     try:
-        rbql.query_csv(ftext, src, dlm, policy, dst, ',', 'quoted', enc, warnings, True)
+        rbql.query_csv(ftext, src, dlm, policy, dst, ',', 'quoted', enc, warnings, True, comment)
         results['query_csv'] = parse(dst, ',', 'quoted')
     except Exception as e:
         results['query_csv'] = ('error', engine.err_info(e)['cls'])
@@ -239,7 +259,7 @@ def check_scenario(sc, scratch, stats=None):
         mode_word = ['csv'] if len(text) % 3 == 1 else []     # `rbql [csv] ...`: the documented optional mode word
         if mode_word:
             name += '+mode-word'
-        rc, out, err = cli(mode_word + ['--delim', cli_dlm, '--policy', policy, '--encoding', enc, '--with-headers', '--query', ftext] + extra, scratch, stdin_data)
+        rc, out, err = cli(mode_word + ['--delim', cli_dlm, '--policy', policy, '--encoding', enc, '--with-headers', '--query', ftext] + (['--comment-prefix', comment] if comment else []) + extra, scratch, stdin_data)
         out = out.decode(enc, errors='replace')
         ctx = {'query': ftext, 'entry': name, 'exit': rc, 'stderr': err[-400:], 'stdout': out[:300]}
         if lib_err is None:
